@@ -149,6 +149,12 @@ class C07(Check):
                     like = rng.choice(nodes)
                     new = f'zn{j}'
                     ops.append({'op': 'add_node', 'like': like, 'name': new})
+                    if rng.random() < 0.5:
+                        # the new node's template is DERIVED from the existing node's (NodeTemplate.update_template) and gets
+                        # an override of its own through NodeTemplate.update_var: the node it was derived from keeps its value
+                        (ln, lo), li = rng.choice([(key, i_) for key, i_ in net.inst.items() if key[0] == like])
+                        lvar = rng.choice(models.LIB[li['lib']]['const'] + models.LIB[li['lib']]['state'])
+                        ops[-1]['derive'] = {'opn': lo, 'var': lvar, 'val': rng.randint(1, 60) / 16}
                     net.clone_node(like, new)
                     flat_nodes[new] = flat_nodes[like]
                     nodes.append(new)
@@ -300,12 +306,19 @@ class C07(Check):
             elif op['op'] == 'add_node':
                 try:
                     T_ = w.objs['T']
-                    T_.update_template(nodes={op['name']: T_.nodes[op['like']]}, in_place=True)
+                    nt_ = T_.nodes[op['like']]
+                    if op.get('derive'):
+                        nt_ = nt_.update_template(name=f'{nt_.name}_d{k}')
+                        nt_.update_var(op['derive']['opn'], op['derive']['var'], op['derive']['val'])
+                        bump('derived_node_template')
+                    T_.update_template(nodes={op['name']: nt_}, in_place=True)
                 except Exception as e:
                     res['violations'].append({'law': 'L-op', 'cls': 'loud', 'key': 'add_node',
                                               'detail': f'op #{k} update_template(nodes=..., in_place=True) raised {type(e).__name__}: {e}'})
                     break
                 ref.clone_node(op['like'], op['name'])
+                if op.get('derive'):
+                    ref.set_value(op['name'], op['derive']['opn'], op['derive']['var'], float(op['derive']['val']))
                 flat_nodes[op['name']] = flat_nodes[op['like']]
                 bump('add_node')
                 obsv.submit(snapshot(w.objs['T']), 'obs_both')
